@@ -150,7 +150,7 @@ def run(chk, replay=None):
     ev1 = cc.replay(chk, cases, want)
     chk.ev.sample({"spec_case": {k: cases[len(cases) // 3][k] for k in ("cls", "a", "cdb", "ctor")}})
     handoff(chk, cases)
-    events = record_random(chk, cases, 40 if chk.quick else 1500)
+    events = record_random(chk, cases, 40 if chk.quick else 4000)
     events = ev1 + events
     cc.judge(chk, events, want, "c01tr")
     chk.ev.sample({"event": events[len(events) // 2]})
